@@ -149,11 +149,12 @@ type sysRun struct {
 	resume   chan struct{}
 	settleN  int
 
-	searches []searchRec
-	mergers  int
-	genSeq   map[string]int
-	genByPid map[int]int
-	became   string
+	searches   []searchRec
+	mergers    int
+	genSeq     map[string]int
+	genByPid   map[int]int
+	became     string
+	becameLeft []string // child processes alive and never signalled at the instant fzf replaced itself
 
 	onSettle func(r *sysRun, busy bool, final bool)
 	onExit   func(r *sysRun)
@@ -367,6 +368,9 @@ func (r *sysRun) start() bool {
 			r.t = args[0].(*Terminal)
 		case "become":
 			r.became = args[0].(string)
+			for _, p := range r.os.AliveUnkilled() {
+				r.becameLeft = append(r.becameLeft, fmt.Sprintf("%d (%q)", p.Pid, p.Command))
+			}
 			r.sim.Logf("become %q", r.became)
 		case "sigtstp":
 			r.os.Stops++
